@@ -31,6 +31,9 @@ type c07Stage struct {
 	Runtime []Step   `json:"runtime"`
 	Exts    [][]Step `json:"exts"`
 	OnTerm  []string `json:"onTerm"` // runtime, e1, e2
+	// PauseMs: the caller waits this long after the stage's invocation before the next one (so that what the processes
+	// do after it - die while the environment is idle, say - happens between invocations)
+	PauseMs int `json:"pauseMs,omitempty"`
 }
 
 const c07Tail = 3
@@ -67,6 +70,9 @@ func (c *c07Case) scenario() *Scenario {
 			continue
 		}
 		sc.Driver = append(sc.Driver, inv)
+		if st.PauseMs > 0 {
+			sc.Driver = append(sc.Driver, Step{Op: "sleep", Ms: st.PauseMs})
+		}
 	}
 	sc.Actors["runtime"] = append(sc.Actors["runtime"], Script{Steps: []Step{{Op: "rt.loop"}}})
 	for i := 0; i < c.NExt; i++ {
@@ -382,6 +388,15 @@ func c07Gen(t *rapid.T) c07Case {
 	terms := []string{"", "", "", "exit0", "ignore"}
 	for s := 0; s < n; s++ {
 		st := c07Stage{Runtime: rapid.SliceOfN(c07StepGen("runtime"), 1, 10).Draw(t, fmt.Sprintf("rt%d", s))}
+		if rapid.IntRange(0, 5).Draw(t, fmt.Sprintf("idleDeath%d", s)) == 0 {
+			// a runtime that serves its invocation properly, polls again and then dies while the environment is idle: the
+			// fault only shows in the invocation after it
+			idle := rapid.IntRange(5, 40).Draw(t, fmt.Sprintf("idleMs%d", s))
+			st.PauseMs = idle + 40
+			st.Runtime = []Step{{Op: "rt.next"}, {Op: "rt.response", ID: "cur", BodyMode: "transform"}, {Op: "rt.next", Async: true, Tag: "dup"},
+				{Op: "sleep", Ms: idle},
+				rapid.SampledFrom([]Step{{Op: "exit", Code: 1}, {Op: "exit", Code: 0}, {Op: "crash", Code: 9}}).Draw(t, fmt.Sprintf("idleEnd%d", s))}
+		}
 		st.OnTerm = append(st.OnTerm, rapid.SampledFrom(terms).Draw(t, fmt.Sprintf("term%d", s)))
 		for i := 0; i < c.NExt; i++ {
 			st.Exts = append(st.Exts, rapid.SliceOfN(c07StepGen("ext"), 1, 8).Draw(t, fmt.Sprintf("ext%d_%d", s, i)))
@@ -421,6 +436,10 @@ func c07Fixed() []c07Case {
 		{NExt: 1, Subs: [][]string{{"SHUTDOWN"}}, T: 300, ExecLagMs: map[string]int{"ext:e1": 5}, Stages: []c07Stage{{
 			Runtime: []Step{{Op: "rt.next"}, {Op: "rt.response", ID: "cur", BodyMode: "transform"}}, Exts: [][]Step{{{Op: "exit", Code: 2}}}, OnTerm: []string{"", ""}}}},
 		{NExt: 0, T: 300, ExecLagMs: map[string]int{"runtime": 5}, Stages: []c07Stage{{Runtime: []Step{{Op: "exit", Code: 3}}}}},
+		// the runtime serves its invocation, polls again and dies while idle; a second one does the same
+		{NExt: 0, T: 300, Stages: []c07Stage{
+			{PauseMs: 60, Runtime: []Step{{Op: "rt.next"}, {Op: "rt.response", ID: "cur", BodyMode: "transform"}, {Op: "rt.next", Async: true, Tag: "dup"}, {Op: "sleep", Ms: 20}, {Op: "exit", Code: 1}}},
+			{PauseMs: 60, Runtime: []Step{{Op: "rt.next"}, {Op: "rt.response", ID: "cur", BodyMode: "transform"}, {Op: "rt.next", Async: true, Tag: "dup"}, {Op: "sleep", Ms: 20}, {Op: "crash", Code: 9}}}}},
 		// the runtime stalls in the middle of uploading its response; the function timeout must still be answered in time
 		{NExt: 0, T: 300, Stages: []c07Stage{{Runtime: []Step{{Op: "rt.next"}, {Op: "rt.response", ID: "cur", BodyMode: "transform", SlowBody: "never"}}}}},
 		{NExt: 1, Subs: [][]string{{"INVOKE", "SHUTDOWN"}}, T: 300, Stages: []c07Stage{{Runtime: []Step{{Op: "rt.next"}, {Op: "rt.error", ID: "cur", BodyMode: "transform", ErrType: "Function.Half", SlowBody: "never"}},
